@@ -285,7 +285,7 @@ func generate(r *lib.Run, rng *lib.Rand) []scenario {
 	}
 	nvar := map[string]int{}
 	var scs []scenario
-	// the identifier counter goes once around while call 0 waits: call 1 gets the same identifier
+	// the identifier counter goes once around while call 0 waits: call 1 must be handed another identifier
 	// (compared against the model through the compressed event x.65535 = BulkFail 65535)
 	scs = append(scs, scenario{next0: 40000, class: "wrap", toks: strings.Fields(
 		"b4.0.g.5000 s x.65535 s b6.1.g.5000 s f.rep4.0.0.3 s w.1 s w.0 s")})
